@@ -477,9 +477,10 @@ class Terms(object):
                 facts = list(facts)
                 if p.kind == "assume":
                     c = self.cond(p.ast, p, p.polarity)
-                    if c not in facts:
-                        facts.append(c)
-                out.append((p, facts))
+                    for x in split_cond(*c):
+                        if x not in facts:
+                            facts.append(x)
+                out.append((p, unit_propagate(facts)))
         return out
 
     def quantified(self, node, extra=(), facts=None):
@@ -822,7 +823,7 @@ class Terms(object):
             for x in split_cond(*c):
                 if x not in out:
                     out.append(x)
-        return out
+        return unit_propagate(out)
 
     def _post(self, call, node):
         """Facts that hold when the nested helper called by ``call`` returns
@@ -1497,11 +1498,13 @@ def stores(T, fn=None):
         st = n.ast
         if n.kind != "stmt":
             continue
-        if isinstance(st, ast.Assign) and len(st.targets) == 1 and \
-                isinstance(st.targets[0], ast.Subscript):
-            tgt = st.targets[0]
-            out.append((n, st, T.term(tgt.value, n),
-                        T._index(tgt.slice, n, {}), T.term(st.value, n)))
+        if isinstance(st, ast.Assign) and any(
+                isinstance(t_, ast.Subscript) for t_ in st.targets):
+            for tgt in st.targets:
+                if isinstance(tgt, ast.Subscript):
+                    out.append((n, st, T.term(tgt.value, n),
+                                T._index(tgt.slice, n, {}),
+                                T.term(st.value, n)))
         elif isinstance(st, ast.AugAssign) and \
                 isinstance(st.target, ast.Subscript):
             tgt = st.target
@@ -1973,6 +1976,38 @@ def show(t):
     return repr(t)
 
 
+def unit_propagate(facts):
+    """A false conjunction all but one of whose members are known to hold
+    makes the remaining member false (dually for a true disjunction); the
+    derived facts are added."""
+    facts = list(facts)
+    for _ in range(4):
+        new = []
+        for t, p in facts:
+            kind = "and" if (t[0] == "and" and not p) else \
+                "or" if (t[0] == "or" and p) else None
+            if kind is None:
+                continue
+            rest = []
+            for m in t[1:]:
+                mt, mp = norm_cond(m, True)
+                # a member already decided the other way drops out
+                settled = (mt, mp) in facts if kind == "and" else \
+                    (mt, not mp) in facts
+                if not settled:
+                    rest.append((mt, mp))
+            if len(rest) == 1:
+                mt, mp = rest[0]
+                f = (mt, not mp) if kind == "and" else (mt, mp)
+                for x in split_cond(*f):
+                    if x not in facts and x not in new:
+                        new.append(x)
+        if not new:
+            break
+        facts += new
+    return facts
+
+
 def layers(T, d):
     """How the dictionary ``d`` (a ("new", site, ...) term created in T.fn) is
     built up, as an ordered overlay: [(layer, node)] with layer one of
@@ -2129,3 +2164,69 @@ def layers(T, d):
         if not fwd:
             raise AnalysisError("layers: writes are not totally ordered")
     return events
+
+
+def as_lambda(T, t):
+    """A nested single-expression function used as a value, as the lambda it
+    is equivalent to (("lambda", n, body)); other terms unchanged."""
+    if t[0] != "local" or t[1] not in T._nested:
+        return t
+    fn = T._nested[t[1]]
+    body = [s for s in fn.body if not (
+        isinstance(s, ast.Expr) and isinstance(s.value, ast.Constant))]
+    a = fn.args
+    if len(body) != 1 or not isinstance(body[0], ast.Return) or \
+            body[0].value is None or a.vararg or a.kwarg or a.kwonlyargs or \
+            a.defaults:
+        return t
+    names = [x.arg for x in a.posonlyargs + a.args]
+    inner = Terms(fn, outer=(T, T.cfg.exit))
+    bt = inner.term(body[0].value, inner.cfg.node_of(body[0]))
+    sub = dict((nm, ("lparam", i)) for i, nm in enumerate(names))
+    return ("lambda", len(names), subst_params(expand(bt, 3), sub))
+
+
+def all_views(T):
+    """T and one view per call site of every nested helper (to any depth):
+    the places where statements of this function's computation live."""
+    out = [T]
+    for name, fn in sorted(T._nested.items()):
+        try:
+            out.extend(T.inners(fn))
+        except AnalysisError:
+            continue
+    return out
+
+
+def all_stores(T):
+    """stores() of the function and of its nested helpers (terms expressed in
+    the function's own terms): [(view, node, statement, base, key, value)]."""
+    out = []
+    for v in all_views(T):
+        if v is T:
+            out.extend((T,) + x for x in stores(T))
+        else:
+            for n, st, base, key, val in stores(v.t):
+                out.append((v, n, st, v._x(base), v._x(key), v._x(val)))
+    return out
+
+
+def all_method_calls(T, names):
+    """method_calls() of the function and of its nested helpers:
+    [(view, node, call, receiver term, [argument terms])]."""
+    out = []
+    for v in all_views(T):
+        if v is T:
+            out.extend((T,) + x for x in method_calls(T, names))
+        else:
+            for n, c, recv, args in method_calls(v.t, names):
+                out.append((v, n, c, v._x(recv), [v._x(a) for a in args]))
+    return out
+
+
+def facts_at(view, node):
+    """Facts holding at ``node`` of a view from all_views: the view's own and,
+    for a nested helper, those holding where it is called."""
+    if isinstance(view, _Inner):
+        return view.full_facts(node)
+    return view.all_facts(node)
